@@ -186,14 +186,14 @@ func genC12(t *rapid.T) CaseRT {
 	return CaseRT{Zone: zone, Msg: m}
 }
 
-func TestC12(t *testing.T) {
-	rapid.Check(t, func(t *rapid.T) {
-		c := genC12(t)
-		classes, nt := c12Classify(c)
-		c12Rec.Eval(classes...)
-		if nt {
-			c12Rec.NontrivialCase(vt.Fingerprint(c), func() any { return c })
-		}
-		vt.Run(t, c12Rec, c, checkC12)
-	})
+func TestC12(t *testing.T) { rapid.Check(t, propC12) }
+
+func propC12(t *rapid.T) {
+	c := genC12(t)
+	classes, nt := c12Classify(c)
+	c12Rec.Eval(classes...)
+	if nt {
+		c12Rec.NontrivialCase(vt.Fingerprint(c), func() any { return c })
+	}
+	vt.Run(t, c12Rec, c, checkC12)
 }
